@@ -531,4 +531,34 @@ def rule_error_conversion(ctx):
     conv(ctx, 'C12.l')
 
 
-RULES = [('C16.a', rule_a), ('C16.b', rule_b), ('C16.c', rule_c), ('C16.d', rule_d), ('C16.b', rule_plumbing), ('C16.e', rule_e), ('C02.a', rule_setup_layout), ('C16.f', rule_f), ('C12.l', rule_error_conversion)]
+
+NAME_CHANGING = ('lower', 'upper', 'casefold', 'strip', 'lstrip', 'rstrip', 'title', 'capitalize', 'swapcase',
+                 'replace', 'translate', 'removeprefix', 'removesuffix')
+
+
+def rule_names_unchanged(ctx):
+    """C16.g  SETUP states the configured MIME types, not a normalised spelling of them: the helpers every configured
+    encoding passes through on its way into the frame (ensure_encoding_name, ensure_bytes, str_to_bytes) return the
+    name as given - the enum member's name, the bytes, or the str encoded - and apply none of the str / bytes methods
+    that change a name (lower, strip, replace, ...).  The server hands on_setup what is in the frame, and MIME
+    parameters and vendor trees are case-sensitive to the applications that chose them."""
+    rep = ctx.report
+    repo = ctx.repo
+    n = 0
+    for q in ('rsocket.extensions.mimetypes:ensure_encoding_name', 'rsocket.frame_helpers:ensure_bytes',
+              'rsocket.frame_helpers:str_to_bytes'):
+        f = repo.func(q)
+        if f is None:
+            raise AnalysisError('C16.g: %s vanished' % q)
+        n += 1
+        changing = [x for x in walk_local(f.node) if isinstance(x, ast.Call) and isinstance(x.func, ast.Attribute) and
+                    x.func.attr in NAME_CHANGING]
+        rep.add('C16.g', '%s / hands the configured name on as given' % f.name, f, not changing,
+                'no name-changing method is applied' if not changing else
+                '%s: the MIME type the client was configured with is not what SETUP states and on_setup receives' %
+                ', '.join('.%s()' % x.func.attr for x in changing))
+    rep.require('C16.g', 'helpers the configured encodings pass through', n, 3)
+
+
+
+RULES = [('C16.a', rule_a), ('C16.b', rule_b), ('C16.c', rule_c), ('C16.d', rule_d), ('C16.b', rule_plumbing), ('C16.e', rule_e), ('C02.a', rule_setup_layout), ('C16.f', rule_f), ('C12.l', rule_error_conversion), ('C16.g', rule_names_unchanged)]
